@@ -159,16 +159,37 @@ class StripWhitespaceFilter:
 
 class SpacesAroundOperatorsFilter:
     @staticmethod
+    def _outer_neighbour(tlist, forward):
+        """Returns the leaf token next to the group tlist, if any."""
+        node = tlist
+        while node.parent is not None:
+            idx = node.parent.token_index(node) + (1 if forward else -1)
+            if 0 <= idx < len(node.parent.tokens):
+                token = node.parent.tokens[idx]
+                while token.is_group and token.tokens:
+                    token = token.tokens[0 if forward else -1]
+                return token
+            node = node.parent
+        return None
+
+    @staticmethod
     def _process(tlist):
 
         ttypes = (T.Operator, T.Comparison)
         tidx, token = tlist.token_next_by(t=ttypes)
         while token:
             nidx, next_ = tlist.token_next(tidx, skip_ws=False)
+            if next_ is None:
+                # the operator ends its group (see "x->1")
+                next_ = SpacesAroundOperatorsFilter._outer_neighbour(
+                    tlist, True)
             if next_ and not next_.is_whitespace:
                 tlist.insert_after(tidx, sql.Token(T.Whitespace, ' '))
 
             pidx, prev_ = tlist.token_prev(tidx, skip_ws=False)
+            if prev_ is None:
+                prev_ = SpacesAroundOperatorsFilter._outer_neighbour(
+                    tlist, False)
             if prev_ and not prev_.is_whitespace:
                 tlist.insert_before(tidx, sql.Token(T.Whitespace, ' '))
                 tidx += 1  # has to shift since token inserted before it
